@@ -76,6 +76,26 @@ func (pipeline *FullSyncPipeline) sync(job *job, ctx context.Context) (int, erro
 		return 0, err
 	}
 	syncJobState.ContinuationToken = ""
+
+	// Do not store syncState when the target is an http sink.
+	// Since we use entities for httpsinks, the continuation tokens are base64 strings and not compatible with incremental tokens
+	//
+	// Exception is when used with MultiSource... MultiSource only operates on changes. also in fullsync mode.
+	//   Difference there between fullsync and incremental is whether dependencies are processed
+	// Other exception is when the source is LatestOnly. In that case we can use the changes collection to produce entities
+	storeSyncState := pipeline.sink.GetConfig()["Type"] != "HttpDatasetSink" ||
+		(isDatasetSource && dss.LatestOnly) ||
+		pipeline.source.GetConfig()["Type"] == "MultiSource"
+
+	// from here on the sink receives the history of the source from the beginning again, so the token of the
+	// previous runs no longer describes what the sink holds. It is cleared now and not only replaced at the end:
+	// if this run fails half way, the next incremental run must not skip the versions that were delivered again.
+	if storeSyncState {
+		err = runner.store.StoreObject(server.JobDataIndex, job.id, syncJobState)
+		if err != nil {
+			return 0, err
+		}
+	}
 	entCnt := 0
 	tags := []string{"application:datahub", "job:" + job.title}
 	for keepReading {
@@ -160,15 +180,7 @@ func (pipeline *FullSyncPipeline) sync(job *job, ctx context.Context) (int, erro
 		}
 	}
 
-	//Do not store syncState when the target is an http sink.
-	//Since we use entities for httpsinks, the continuation tokens are base64 strings and not compatible with incremental tokens
-	//
-	//Exception is when used with MultiSource... MultiSource only operates on changes. also in fullsync mode.
-	//   Difference there between fullsync and incremental is whether dependencies are processed
-	//Other exception is when the source is LatestOnly. In that case we can use the changes collection to produce entities
-	if pipeline.sink.GetConfig()["Type"] != "HttpDatasetSink" ||
-		(isDatasetSource && dss.LatestOnly) ||
-		pipeline.source.GetConfig()["Type"] == "MultiSource" {
+	if storeSyncState {
 		err = runner.store.StoreObject(server.JobDataIndex, job.id, syncJobState)
 		if err != nil {
 			return entCnt, err
